@@ -7,6 +7,7 @@ pub mod c04;
 pub mod c06;
 pub mod c07;
 pub mod c08;
+pub mod c11;
 pub mod c14;
 pub mod c17;
 pub mod c36;
@@ -20,6 +21,7 @@ pub fn run(ctx: &Ctx, id: &str) -> bool {
         "C06" => c06::run(ctx),
         "C07" => c07::run(ctx),
         "C08" => c08::run(ctx),
+        "C11" => c11::run(ctx),
         "C14" => c14::run(ctx),
         "C17" => c17::run(ctx),
         "C36" => c36::run(ctx),
